@@ -1768,6 +1768,15 @@ class Cap(object):
                     base.imprecise.add(x)
                     getter = (lambda st, d=d: st.env[d][1] if st.env.get(d) is not None and st.env[d][0] == "i" else None)
                     carry(x, getter)
+                    # the merged values differ by constants only (i + 1 on one path, i + 2 on another): the merged value lies
+                    # between the smallest and the largest of them
+                    vals_ = [getter(st) for st in g]
+                    if all(v_ is not None for v_ in vals_):
+                        dif_ = [v_ - vals_[0] for v_ in vals_]
+                        if all(d_.is_const() for d_ in dif_):
+                            lo_, hi_ = min(d_.c for d_ in dif_), max(d_.c for d_ in dif_)
+                            base.cons.append(Lin.sym(x) - vals_[0] - lo_)
+                            base.cons.append(vals_[0] + hi_ - Lin.sym(x))
                     merged_vars.append((x, getter))
             # order relations between two merged variables that hold in every merged state (first <= last, i <= j + 1 ...)
             for i_ in range(len(merged_vars)):
@@ -2501,6 +2510,10 @@ class Cap(object):
                 strict_up.append(info)
             if down:
                 strict_down.append(info)
+            if DEBUG_LOOPS and not up and not down and self.check_progress:
+                for e in final_ends:
+                    nv = value_of(e, key, info)
+                    print("  PROGRESS line %s key %r: end value %r (x=%s) path=%s" % (n.get("l"), key, nv, info[1], e.path[-4:]))
         # exits through the havocked state stand for "after at least one iteration" (zero iterations are the precise
         # f0 exits): strictly monotone quantities have moved by at least one step
         for e in exit_states:
